@@ -77,6 +77,21 @@ CHECKS = {
             "C06 workload over installed schemas and harness families; Draft-7 validation, schema/parent chain/provider equality with the plugin system after every attachment and at reopen points.",
             "jsonschema package as validator",
             "4 C20"),
+    "C09": ("exploration",
+            "lock-step differential monitor of one container history through MetadorContainer on h5py.File, IH5Record and IH5MFRecord (status, user view, attached metadata, TOC up to UUID bijection, queries) after every step",
+            "Random container histories with IH5 patch boundaries and reopen points at generated positions; all three drivers must agree on ok/fail and on everything a user can observe.",
+            "exception classes not compared",
+            "4 C09"),
+    "C15": ("exploration",
+            "breadth-first exploration of wrapper states reachable by navigation chains from restricted start nodes; per reached state all mutators / readers / upward operations must be refused with the raw container dump unchanged",
+            "Every start node x 7 flag combinations x 2 drivers; all chains up to length 3 (quick) / 5 (thorough) over the navigation primitives are explored (terminals run once per distinct wrapper state: node, flags, local parent).",
+            "chains through `file` and dataset extras outside the H5DatasetLike protocol are observations only",
+            "4 C15"),
+    "C17": ("exploration",
+            "read-back monitor: pack_file of a boundary/NUL/marker byte corpus on three drivers, then histories that keep the node (patch boundaries, copy, move, group copy, delete original, reopen, merge) with every surviving copy re-read and its file metadata re-checked at every stage",
+            "Each byte string x driver x history; bytes, contentSize, sha256 and filename compared with the source file and hashlib at each stage; the IH5 deletion-marker value must be rejected without effect.",
+            "fixed history templates (three)",
+            "4 C17"),
 }
 
 NOT_YET = {
